@@ -165,7 +165,8 @@ DEFAULTS = dict(entry=3, flags=0, scale=8.0, sw=2.0, ow=0.0, oh=0.0, fs=14, ff='
 ENTRY_NAMES = ['to_svg', 'to_svg_string_pretty', 'to_svg_string_compressed', 'to_svg_with_settings',
                'to_svg_with_override_size', 'CellBuffer::from + get_node_with_size twice (entry 5: first render at scale `ow` with the switches inverted)',
                'CellBuffer converted, edited through DerefMut to hold the cells of a second document, converted again (entry 6: input = first U+001E second)',
-               'CellBuffer::get_fragment_spans + CellBuffer::fragments_to_node (entry 7: canvas ow x oh, no legend css, rejected groups not drawn)']
+               'CellBuffer::get_fragment_spans + CellBuffer::fragments_to_node (entry 7: canvas ow x oh, no legend css, rejected groups not drawn)',
+               'StringBuffer::new + add_char per character in an order shuffled by the seed `ow`, some cells overwritten; CellBuffer::from(StringBuffer) + get_node_with_size (entry 8)']
 
 
 def _s(x):
@@ -452,7 +453,7 @@ class Scene:
         self.H = num(root.attrs.get('height', ''))
         self.style = [k for k in root.kids if k.name == 'style']
         self.defs = [k for k in root.kids if k.name == 'defs']
-        self.backdrop = [k for k in root.kids if k.name == 'rect' and k.attrs.get('class') == 'backdrop']
+        self.backdrop = [k for k in root.kids if k.name == 'rect' and 'backdrop' in (k.attrs.get('class') or '').split()]
         body = [k for k in root.kids if k.name not in ('style', 'defs') and k not in self.backdrop]
         self.els = [canon_el(k, F(dx), F(dy), F(sc)) for k in body]
 
@@ -844,7 +845,9 @@ class Run:
                        'message': v['message']}, open(path, 'w'), indent=1, ensure_ascii=True, default=_jd)
             lines.append((path, v['message']))
         floors_failed = []
-        floors = getattr(mod, 'FLOORS', {}).get(self.tier, {})
+        floors = dict(getattr(mod, 'FLOORS', {}).get(self.tier, {}))
+        for name in getattr(self, 'floors_not_applicable', {}):
+            floors.pop(name, None)
         for name, need in floors.items():
             have = {'evaluations': self.evals, 'distinct_nontrivial': len(self.keys)}.get(name, self.tags.get(name, 0))
             if have < need:
